@@ -8,7 +8,7 @@
 (* and validation continues, so one run reports every rejection.           *)
 (* The orchestrator (bin/check) attributes failed conjuncts to properties. *)
 (***************************************************************************)
-EXTENDS Arith, Order, Text, Conv, BigIntM, Json
+EXTENDS Arith, Order, Text, Conv, BigIntM, ErrDec, Json
 T == ndJsonDeserialize("trace.ndjson")
 VARIABLE l
 
@@ -51,6 +51,7 @@ Verdict_a(ev) ==
        <<"cnt",   (ev.op = "reduce" /\ w.k = "fin" /\ got.f = FIN) =>
                      (IF IsZero(ev.x.c) THEN ev.cnt = 0
                       ELSE ((NumDigits(ev.x.c) <= ev.ctx.p /\ ev.x.e >= Etiny(ev.ctx)) \/ ev.ctx.p = 0) => ev.cnt = TrailingZeros(ev.x.c))>>,
+       <<"ctxframe", ev.ctxa = ev.ctx>>,
        <<"frame", /\ (ev.al \notin {"dx", "dxy"} => SameRepr(ev.xa, ev.x))
                   /\ (ev.al \notin {"dy", "dxy", "xy"} => SameRepr(ev.ya, ev.y))
                   /\ (ev.al = "xy" => SameRepr(ev.ya, ev.x))>> >>)
@@ -196,8 +197,52 @@ HistVerdict(steps, i, pre, acc) ==
        IN HistVerdict(steps, i + 1, nxt, acc \cup v)
 Verdict_bh(ev) == HistVerdict(ev.steps, 1, [i \in 1..Len(ev.init) |-> SInt(ev.init[i].n, ev.init[i].c)], {})
 
+\* ---------------- family "mh": register-machine / ErrDecimal histories (C06, C03) ----------------
+\* The machine's variables (reg, ed) are carried along the recorded history; each recorded step must be
+\* the step the machine takes given the reference outcome of the same operation on clones of the operands.
+SetUnion(a, b) == a \cup b
+MStepVerdict(mode, ctx, st, reg, ed) ==
+  LET out == [val |-> st.ref.res, fl |-> BitSet(st.ref.fl), err |-> st.ref.err # ""]
+      post == [i \in 1..Len(st.post) |-> st.post[i]]
+      d == st.d + 1
+      composite == st.op \in Composite
+      SameD(a, b) == SameRepr(a, b) /\ a.cs = b.cs
+  IN IF st.panic # "" \/ st.ref.panic # "" THEN [names |-> {"panic"}, reg |-> reg, ed |-> ed]
+     ELSE IF mode = "ctx" THEN
+       LET nx == CtxStep(reg, d, out) IN
+       [names |-> Names(<<
+           <<"hist-indep", /\ (st.err = "" => SameD(post[d], nx[d]))      \* ctx histories run without traps: an error is a system limit
+                           /\ st.fl = st.ref.fl /\ st.err = st.ref.err /\ st.cnt = st.ref.cnt>>,
+           <<"frame",      \A i \in 1..Len(post) : i # d => SameD(post[i], reg[i])>>,
+           <<"ctxframe",   st.ctxa = ctx>>,
+           <<"shared-state", st.sh>> >>),
+        reg |-> post, ed |-> ed]
+     ELSE
+       LET nx == EdStep(reg, ed, d, out, SetUnion) IN
+       [names |-> Names(<<
+           <<"ed-skip",   ed.err => (\A i \in 1..Len(post) : SameD(post[i], reg[i]))>>,
+           <<"ed-same-op", (~ed.err /\ (~out.err \/ ~composite)) => SameD(post[d], nx.reg[d])>>,
+           <<"ed-flags",  BitSet(st.edfl) = nx.ed.flags>>,
+           <<"ed-err",    st.ederr = nx.ed.err>>,
+           <<"ed-count",  (~ed.err /\ st.op = "reduce") => st.cnt = st.ref.cnt>>,
+           <<"frame",     \A i \in 1..Len(post) : i # d => SameD(post[i], reg[i])>>,
+           <<"ctxframe",  st.ctxa = ctx>>,
+           <<"shared-state", st.sh>> >>),
+        reg |-> post, ed |-> nx.ed]
+RECURSIVE MHist(_, _, _, _, _, _, _)
+MHist(mode, ctx, steps, i, reg, ed, acc) ==
+  IF i > Len(steps) THEN acc
+  ELSE LET r == MStepVerdict(mode, ctx, steps[i], reg, ed)
+           dbg == r.names = {} \/ PrintT(<<"STEP", i, steps[i].op, steps[i].d, steps[i].x, steps[i].y, r.names>>)
+       IN IF dbg THEN MHist(mode, ctx, steps, i + 1, r.reg, r.ed, acc \cup r.names)
+          ELSE MHist(mode, ctx, steps, i + 1, r.reg, r.ed, acc \cup r.names)
+Verdict_mh(ev) == MHist(ev.mode, ev.ctx, ev.steps, 1, [i \in 1..Len(ev.init) |-> [ev.init[i] EXCEPT !.cs = ev.init[i].cs]],
+                        [err |-> FALSE, flags |-> {}], {})
+
 Verdict(ev) ==
   CASE ev.k = "a" -> Verdict_a(ev)
+    [] ev.k = "mh" -> Verdict_mh(ev)
+    [] ev.k = "sh" -> Names(<< <<"shared-state", ev.before = ev.after>> >>)
     [] ev.k = "bh" -> Verdict_bh(ev)
     [] ev.k = "cv" -> Verdict_cv(ev)
     [] ev.k = "t" -> Verdict_t(ev)
